@@ -430,6 +430,32 @@ func c10Final(b kvBackend, st kvStore, h db.Db, m *ref.KV, touched map[ref.Cell]
 		}
 		viols = append(viols, c10ProbeCells(b, h, m, c10Variants(set), where+" (read back at the end)", steps)...)
 	}
+	if len(viols) > 0 {
+		return viols
+	}
+	// cell independence: overwrite every stored entry in turn with a fresh value (through the ordinary
+	// operations, so the reference follows) and read everything back - a write to one (type, session,
+	// language, key) must not change what any other one reads, e.g. a translation whose value happened
+	// to equal its default entry must keep its own value when the default changes.
+	for i, cell := range m.AllCells() {
+		if cell.Typ&m.Lock != 0 {
+			continue
+		}
+		for _, o := range []ref.KVOp{{Op: "prefix", Typ: cell.Typ}, {Op: "session", Sess: ref.Bs(cell.Sess)}, {Op: "lang", Lang: cell.Lang}, {Op: "put", Key: ref.Bs(cell.Key), Val: ref.Bs(fmt.Sprintf("perturb%d", i))}} {
+			vs, div := c10Step(b, st, h, m, o, where+" independence probe", touched, steps, false)
+			viols = append(viols, vs...)
+			if div || len(vs) > 0 {
+				return viols
+			}
+		}
+		set := map[ref.Cell]bool{}
+		for _, c := range m.AllCells() {
+			set[c] = true
+		}
+		if vs := c10ProbeCells(b, h, m, c10Variants(set), where+fmt.Sprintf(" (after overwriting %v)", cell), steps); len(vs) > 0 {
+			return append(viols, vs...)
+		}
+	}
 	return viols
 }
 
@@ -684,6 +710,7 @@ func c10Run(c *mc.Ctx) {
 	// ---- Part C
 	if strings.Contains(parts, "C") {
 		c10PartC(c, backends)
+		c10PartD(c, backends)
 	}
 	if c.TimeUp() {
 		return
@@ -692,6 +719,61 @@ func c10Run(c *mc.Ctx) {
 	// ---- Part B
 	if strings.Contains(parts, "B") {
 		c10PartB(c, alpha, backends, bdepth, runLeaf)
+	}
+}
+
+// c10PartD: listing with session ids one of which is a suffix of the other, and - in binary-key mode,
+// where keys are meant to be arbitrary bytes - keys whose base64 form uses the 62nd/63rd characters.
+func c10PartD(c *mc.Ctx, backends []kvBackend) {
+	type ent struct{ sess, key string }
+	sessions := []string{"ss", "xss", ""}
+	for _, bin := range []bool{false, true} {
+		keys := []string{"foo", "foob", "bar"}
+		prefixes := []string{"", "fo", "foo", "b"}
+		if bin {
+			keys = []string{"foo", "\x01\x00\x3e", "\x01\x0f\xbe", "\x01\x00"}
+			prefixes = []string{"", "fo", "\x01", "\x01\x00"}
+		}
+		var uni []ent
+		for _, s := range sessions {
+			for _, k := range keys {
+				uni = append(uni, ent{s, k})
+			}
+		}
+		n := len(uni)
+		for i := 0; i < n; i++ {
+			if !c.Mine() {
+				continue
+			}
+			for j := i; j < n; j++ {
+				for k := j; k < n; k++ {
+					idx := map[int]bool{i: true, j: true, k: true}
+					for _, typ := range []uint8{ref.TState, ref.TUserData} {
+						var stored []c10Stored
+						for x := 0; x < n; x++ {
+							if idx[x] {
+								stored = append(stored, c10Stored{Typ: typ, Sess: ref.Bs(uni[x].sess), Key: ref.Bs(uni[x].key)})
+							}
+						}
+						for _, b := range backends {
+							if !b.HasDump || b.Binary != bin {
+								continue
+							}
+							viols, wits, steps := c10DumpCase(b, stored, typ, sessions, prefixes, nil)
+							c.Count("evaluations", 1)
+							c.Count("dump_cases_partD", 1)
+							c.Count("transitions", int64(steps))
+							for vi, v := range viols {
+								w := wits[vi]
+								w.Sig = v.Sig
+								w.Stored = append([]c10Stored(nil), stored...)
+								c.Fail(v.Sig, v.Msg, w)
+							}
+						}
+					}
+				}
+			}
+		}
 	}
 }
 
